@@ -31,9 +31,9 @@ type input struct {
 	NH    int    `json:"nh,omitempty"`
 	Ops   []opj  `json:"ops,omitempty"`
 	// classify
-	Err  string  `json:"err,omitempty"`
-	Feat []bool  `json:"feat,omitempty"`
-	Lost bool    `json:"lost,omitempty"`
+	Err  string `json:"err,omitempty"`
+	Feat []bool `json:"feat,omitempty"`
+	Lost bool   `json:"lost,omitempty"`
 	// entry
 	Entry string `json:"entry,omitempty"`
 	Self  int    `json:"self,omitempty"`
@@ -112,7 +112,14 @@ func genOps(rng *rand.Rand, np, nh, n int, scripted, tcp bool) []opj {
 			ops = append(ops, opj{K: "send", P: p, M: msgs(), Buf: buf})
 			conns++
 		case x < 40:
-			ops = append(ops, opj{K: "crash", P: p})
+			if !scripted && up[p] && rng.Intn(4) == 0 {
+				ops = append(ops, opj{K: "crashsending", P: p})
+			} else if scripted && !up[p] && rng.Intn(3) == 0 {
+				ops = append(ops, opj{K: "abandoneddial", P: p, Closes: rng.Intn(2) == 0})
+				conns++
+			} else {
+				ops = append(ops, opj{K: "crash", P: p})
+			}
 			up[p] = false
 		case x < 52:
 			// prefer restarting somebody who is down
@@ -282,6 +289,19 @@ func corpus() []interface{} {
 			{K: "crash", P: 0}, {K: "send", P: 0, M: []int{5}}, {K: "send", P: 1, M: []int{6}},
 			{K: "restart", P: 0}, {K: "send", P: 0, M: []int{7, 8}}, {K: "peersend", P: 0, M: []int{9}},
 			{K: "crash", P: 0}, {K: "restart", P: 0}, {K: "crash", P: 0}, {K: "restart", P: 0}, {K: "send", P: 0, M: []int{10}}}},
+		// F11 seen from the survivor: the stopping peer still dials, its registration is refused, the
+		// connection is dropped without being closed; S keeps it, and after the restart S's sends
+		// are swallowed by it
+		input{Kind: "real", Label: "zombie", TCP: false, NP: 2, NH: 1, Ops: []opj{
+			{K: "send", P: 0, M: []int{1}}, {K: "crashsending", P: 0}, {K: "send", P: 0, M: []int{2}}, {K: "send", P: 1, M: []int{3}},
+			{K: "restart", P: 0}, {K: "send", P: 0, M: []int{4}}, {K: "send", P: 0, M: []int{5, 6}}}},
+		input{Kind: "real", Label: "zombie", TCP: true, NP: 2, NH: 1, Ops: []opj{
+			{K: "send", P: 0, M: []int{1}}, {K: "crashsending", P: 0}, {K: "send", P: 1, M: []int{3}},
+			{K: "restart", P: 0}, {K: "send", P: 0, M: []int{4}}, {K: "send", P: 0, M: []int{5, 6}}}},
+		input{Kind: "script", Label: "abandoned-connection", TCP: false, NP: 1, NH: 1, Ops: []opj{
+			{K: "send", P: 0, M: []int{1}}, {K: "crash", P: 0}, {K: "abandoneddial", P: 0}, {K: "recverr", C: 0, E: "EClosed"},
+			{K: "send", P: 0, M: []int{2}}, {K: "restart", P: 0}, {K: "send", P: 0, M: []int{3}},
+			{K: "recverr", C: 1, E: "ETimeout"}, {K: "send", P: 0, M: []int{4}}}},
 		input{Kind: "real", Label: "crash-during-setup", TCP: false, NP: 1, NH: 1, Ops: []opj{
 			{K: "sendhold", P: 0, M: []int{1}}, {K: "crash", P: 0}, {K: "resume"}, {K: "restart", P: 0}, {K: "send", P: 0, M: []int{2}}}},
 		input{Kind: "real", Label: "crash-during-setup", TCP: true, NP: 1, NH: 1, Ops: []opj{
